@@ -98,6 +98,16 @@ func (c Col) SQL() string {
 }
 
 // HasAttr tells whether the column carries anything beyond its name.
+// Generated: the column is a generated column (its value cannot be inserted).
+func (c Col) Generated() bool {
+	for _, k := range c.Cons {
+		if strings.HasPrefix(k, "AS (") || strings.HasPrefix(k, "GENERATED ALWAYS") {
+			return true
+		}
+	}
+	return false
+}
+
 func (c Col) HasAttr() bool { return c.Type != "" || len(c.Cons) > 0 }
 
 // Table is a CREATE TABLE statement in element form.
@@ -214,7 +224,7 @@ func genFK(t *rapid.T, cols []Ident, conservative bool) string {
 				" ON DELETE NO ACTION", " ON UPDATE SET DEFAULT", " INITIALLY DEFERRED ON DELETE CASCADE"}).Draw(t, "fkx")
 	}
 	s := "REFERENCES " + rapid.SampledFrom([]string{"other", "\"other t\"", "t2"}).Draw(t, "fkt")
-	s += rapid.SampledFrom([]string{"(id)", "(a, b)", "(id)", ""}).Draw(t, "fkc")
+	s += rapid.SampledFrom([]string{"(id)", "(a, b)", "", ""}).Draw(t, "fkc") // (no list: the parent's primary key)
 	s += rapid.SampledFrom([]string{"", "", " DEFERRABLE", " DEFERRABLE INITIALLY DEFERRED", " ON DELETE CASCADE", " ON UPDATE SET NULL ON DELETE RESTRICT",
 		" ON DELETE NO ACTION", " ON UPDATE SET DEFAULT", " MATCH FULL", " NOT DEFERRABLE", " ON DELETE CASCADE DEFERRABLE INITIALLY IMMEDIATE"}).Draw(t, "fkx")
 	return s
@@ -340,13 +350,32 @@ func GenTable(t *rapid.T, name Ident, o Opts) Table {
 				s = "CONSTRAINT " + rapid.SampledFrom([]string{"cn", "\"c n\"", "uq1"}).Draw(t, "cname") + " " +
 					rapid.SampledFrom([]string{"NOT NULL", "UNIQUE", "CHECK (1)", "DEFAULT 3"}).Draw(t, "cnamed")
 			case 9:
-				s = rapid.SampledFrom([]string{"NOT NULL ON CONFLICT IGNORE", "UNIQUE ON CONFLICT REPLACE", "GENERATED ALWAYS AS (1) VIRTUAL", "AS (2) STORED", "NOT NULL UNIQUE"}).Draw(t, "cmisc")
+				s = rapid.SampledFrom([]string{"NOT NULL ON CONFLICT IGNORE", "UNIQUE ON CONFLICT REPLACE", "GENERATED ALWAYS AS (1) VIRTUAL", "AS (2) STORED", "NOT NULL UNIQUE", "AS (5)", "AS (7)", "GENERATED ALWAYS AS (3)"}).Draw(t, "cmisc")
 			}
 			cons = append(cons, s)
 		}
 		// constraints in any textual order
 		if len(cons) > 1 {
 			cons = rapid.Permutation(cons).Draw(t, "consorder")
+		}
+		if i != pkcol && n > 1 && rapid.IntRange(0, 29).Draw(t, "gencol") == 0 {
+			// a virtual generated column, also among otherwise plain columns:
+			// SQLite does not store it, so a reader that takes it for an
+			// ordinary column reads every later column from the wrong place
+			c.Type = ""
+			cons = []string{"AS (" + rapid.SampledFrom([]string{"5", "'g'", "NULL", "1+1"}).Draw(t, "genexpr") + ")"}
+			if rapid.IntRange(0, 3).Draw(t, "genuq") == 0 {
+				cons = append(cons, "UNIQUE")
+			}
+		}
+		for i, k := range cons {
+			if strings.HasPrefix(k, "AS (") && !strings.HasSuffix(k, "STORED") {
+				// a virtual generated column in its shortest spelling: name AS
+				// (expr), no type, nothing before it
+				cons[0], cons[i] = cons[i], cons[0]
+				c.Type = ""
+				break
+			}
 		}
 		c.Cons = cons
 	}
